@@ -9,7 +9,7 @@ CRYPTO_TRUST = [
 ]
 
 PROP = Property(
-    "C02", ["HsVerif.Props.C02"], [CertFam("c02"), BytesFam("c02")],
+    "C02", ["HsVerif.Props.C02", "HsVerif.Props.C02Gen"], [CertFam("c02"), BytesFam("c02")],
     facts=[
         # 28593c9: a failed pairing check is repeated in two equivalent arrangements (library Miller-loop defect)
         {"func": "security/crypto/bls12.go:bls12Base.coreVerify", "order": ["subgroupCheck", "HashToCurve", "pairingCheck"]},
@@ -30,5 +30,5 @@ PROP = Property(
 META = {
     "text": "Proof (soundness, all n, all wire-shaped certificate values incl. every structural mutation, three schemes): Lean theorems verifyQC_sound, verifyTC_sound, verifyAggQC_sound (each signer signed its own timeout message; the reported high QC verifies and has maximal view among the attested QCs that verify), verifyAnyQC_sound, plus sub-quorum and relabelled-view rejection, over a symbolic signature model of ecdsa.go/eddsa.go/bls12.go Verify/BatchVerify/Combine and of cert/auth.go. Completeness (n >= 2): create_verify_QC / create_verify_TC prove that Combine of the Sign outputs of >= quorum distinct configured replicas verifies at every replica (both list and bit-field schemes); for CreateAggregateQC completeness is proved under C08 (Props/C08Agg: agg_verifies) and exercised here by the correspondence (create-agg then verify-agg, judged by the oracle). Tie: every script is run on real cert.Authority instances with real keys (n in 1..13, cache on/off, 3 schemes) and on the model; an independent ground-truth oracle (Spec/Cert.lean: who really signed what) judges every implementation verdict.",
     "note": "Trusted: Lean kernel, symbolic-crypto assumptions (EUF-CMA, PoP, no algebraic accidents), SHA-256/encoding injectivity, the harness' materialisation of symbolic signatures, protobuf not involved here. Models the code with the fix: commits for duplicate signers, QC view, BLS empty participant set and nil signatures applied. BLS12-381 completeness was FALSE of the real code for about 1 in 10^5 pairing checks (pairing-library Miller-loop defect, upstream issue #232; private key 1 over 'msg-211589' never verified): found by tracing this framework's 'transient' BLS rejections, repaired by 28593c9, replayed by corpus/cert/11 and 12 with fixed keys.",
-    "technique": "Lean 4 soundness theorems over a symbolic signature model + differential correspondence with real crypto + ground-truth oracle",
+    "technique": "Lean 4 soundness theorems over a symbolic signature model + differential correspondence with real crypto + ground-truth oracle + Go->Lean translation of VerifyQuorumCert/VerifyTimeoutCert/VerifyPartialCert with the acceptance conditions proved on the regenerated code (Props/C02Gen)",
 }
